@@ -224,6 +224,14 @@ class C31Monitor(explore.Monitor):
 
   def classify(self, clause, detail, bundle, history):
     a = detail.get("action") or ["?"]
+    if clause == "C31.summary_rows_not_direct" and detail.get("direct") and len(a) > 3 and \
+        a[0] in ("UpdateRecord", "BulkUpdateRecord") and isinstance(a[3], dict) and \
+        any(b[0] in ("RemoveRecord", "BulkRemoveRecord") for b in (bundle or []) if b) and \
+        all(v in (0, None) or (isinstance(v, list) and all(x in (0, None) for x in v))
+            for v in a[3].values()):
+      # the clean-up of references to removed rows reached a summary table whose group-by column
+      # is itself a reference column
+      return "%s: reference clean-up after a removal written to a summary table as direct" % clause
     return "%s: %s %s" % (clause, a[0], "direct" if detail.get("direct") else "non-direct")
 
 
